@@ -630,8 +630,11 @@ func runHistCase(c *HistCase, prop string) (*caseOut, error) {
 			for _, l := range e.labelsBefore(op) {
 				out.labels[l] = true
 				stepLabels[l] = true
-				if l == "relative-name" {
-					static[l] = true // aliasing keys stay in the tracking state for the rest of the case
+				if l == "relative-name" || l == "rename-nonempty-dir" {
+					// aliasing keys / untracked children of a renamed directory stay in the tracking
+					// state for the rest of the case: later operations below the renamed directory
+					// fail in tryBackup (no parent copy in the backup) where the direct call succeeds
+					static[l] = true
 				}
 			}
 			var baseBefore []string
